@@ -5,5 +5,5 @@ From Coq Require Import String.
 From QSCGen Require Import G_pins.
 Open Scope string_scope.
 
-Lemma pin_spectral_diff_matrix_current : pin_spectral_diff_matrix = "961a199489cd34ecb71202fd0b41eded983fae7c50bbcc4f9d94be43a41cb87f".
+Lemma pin_spectral_diff_matrix_current : pin_spectral_diff_matrix = "46def9512e0bbe1fca18b110f4856d02eba7622d191e17d0c0015b937c066cf0".
 Proof. reflexivity. Qed.
